@@ -5,8 +5,9 @@
    before the calls whose values it consumes), judged per run.
    To keep the literals small all strings of an observation are interned: the observation is
      [ sorted table of the distinct strings ; distinct output blocks ; [ run observation with indices ... ] ]. *)
-From Verif Require Export Base.Prelude Base.StrUtil Base.Index Base.NdArr Model.MapSpec Model.MapSpecSpec
+From Verif Require Export Base.Prelude Base.StrUtil Base.Index Base.NdArr Base.PyRange Model.MapSpec Model.MapSpecSpec
   Model.MapRun Model.MapDenote Model.SymBody Model.ParGen.
+From Verif Require Import Corr.Resume_C03.
 
 Record runcfg := {
   r_pis : list (list nat);     (* execution order (permutation of the submission slots) per generation *)
@@ -15,13 +16,24 @@ Record runcfg := {
                                   1: real thread pool (canonical log, sorted dumps); 2: process pool (no dumps) *)
 }.
 
+(* a run on an existing store: the folder is pre-filled by sequential runs (parallel=False, cleanup only for the
+   first) with the fixed_indices of s_pre (None = a full run), then the observed run: cleanup=False,
+   fixed_indices = s_fx, under the configuration s_cfg *)
+Record rescfg := {
+  s_pre : list (option (list (str * fsel)));
+  s_fx : option (list (str * fsel));
+  s_cfg : runcfg
+}.
+
 Record case := {
   q_funcs : list mfunc;        (* in a topological order (the order in which outputs are observed) *)
   q_inputs : env;
   q_internal : shape_dict;
   q_gens : list (list nat);    (* generations as positions in q_funcs, in submission order *)
   q_runs : list runcfg;
-  q_none : list str            (* names of the functions that return a real None for some calls *)
+  q_none : list str;           (* names of the functions that return a real None for some calls *)
+  q_resume : list rescfg;      (* runs on a pre-filled run folder *)
+  q_fail : list str            (* names of the functions that raise ZeroDivisionError for some calls *)
 }.
 
 (* the structural user function of the harness; a function listed in q_none returns None (canonical string "None")
@@ -33,7 +45,11 @@ Definition none_value (ret : list nat) (base : str) : val :=
   | [] => if code_parity base then VS (s "None") else VS base
   | _ => sym_value ret base
   end.
+Definition code_mod3 (x : str) : bool :=
+  N.eqb (N.modulo (fold_left (fun acc ch => (acc + N_of_ascii ch)%N) x 0%N) 3) 0.
 Definition case_body (c : case) (f : mfunc) (kw : env) : result (list val) :=
+  (* a function listed in q_fail raises when the character codes of its call line sum to a multiple of 3 *)
+  if mem_str (fname f) (q_fail c) && code_mod3 (sym_app f kw) then Err ZeroDivisionError else
   if mem_str (fname f) (q_none c) then
     let app := sym_app f kw in
     match fouts f with
@@ -47,7 +63,8 @@ Record robs := {
   ro_outs : list (option (val * val * val)); (* per output of q_funcs: Result.output, stored value, value
                                                 re-opened from the run folder after the run (= stored) *)
   ro_log : list str;                       (* "f(p=<canon>,...)" per invocation *)
-  ro_dumps : list Z                        (* dump_code (position of the output, external key, dumped while a task ran) *)
+  ro_dumps : list Z;                       (* dump_code (position of the output, external key, dumped while a task ran) *)
+  ro_prelog : list str                     (* runs on an existing store: the calls of the pre-filling runs, sorted *)
 }.
 
 Definition dis_table (c : case) (r : runcfg) : list (str * bool) :=
@@ -145,7 +162,27 @@ Definition run_one (c : case) (r : runcfg) : result robs :=
                         | 0 => dumps
                         | 1 => sort_by Z.leb dumps
                         | _ => []
-                        end |}
+                        end;
+            ro_prelog := [] |}
+  end.
+
+(* a run on an existing store (Model/ParResume on the store left by Model/MapResume's sequential runs) *)
+Definition resume_one (c : case) (r : rescfg) : result robs :=
+  match resume_model (case_body c) (dis_of c (s_cfg r)) (q_funcs c) (gens_of c) (q_inputs c) (q_internal c)
+                     (out_pos c) (s_pre r) (s_fx r) (r_pis (s_cfg r)) with
+  | Err e => Err e
+  | Ok o =>
+      Ok {| ro_outs := rv_outs o;
+            ro_log := match r_mode (s_cfg r) with
+                      | 0 => rv_log o
+                      | _ => canon_runs (fun x => gen_rank c (fname_of_line x)) str_leb (rv_log o)
+                      end;
+            ro_dumps := match r_mode (s_cfg r) with
+                        | 0 => rv_dumps o
+                        | 1 => sort_by Z.leb (rv_dumps o)
+                        | _ => []
+                        end;
+            ro_prelog := rv_prelog o |}
   end.
 
 (* ---------- interning ---------- *)
@@ -177,7 +214,7 @@ Definition outs_strings (o : outs_t) : list str :=
 Definition make_table (blocks : list outs_t) (l : list (result robs)) : list str :=
   fold_left (fun t x => insert_dedup x t)
             (flat_map outs_strings blocks
-             ++ flat_map (fun r => match r with Ok o => ro_log o | Err _ => [] end) l) [].
+             ++ flat_map (fun r => match r with Ok o => ro_log o ++ ro_prelog o | Err _ => [] end) l) [].
 
 Fixpoint str_index (x : str) (t : list str) : nat :=
   match t with [] => 0 | y :: t' => if str_eqb x y then 0 else S (str_index x t') end.
@@ -195,12 +232,12 @@ Definition enc_run (t : list str) (blocks : list outs_t) (r : result robs) : sx 
   match r with
   | Err e => SErr e
   | Ok o => SL [SI 1; SN (outs_index (ro_outs o) blocks); SL (map (fun x => SN (str_index x t)) (ro_log o));
-                SL (map SI (ro_dumps o))]
+                SL (map SI (ro_dumps o)); SL (map (fun x => SN (str_index x t)) (ro_prelog o))]
   end.
 
 Definition run (c : case) : sx :=
   if negb (gens_valid c) then SErr AssertionError else
-  let rs := map (run_one c) (q_runs c) in
+  let rs := map (run_one c) (q_runs c) ++ map (resume_one c) (q_resume c) in
   let blocks := distinct_outs rs in
   let t := make_table blocks rs in
   SL [SL (map SS t); SL (map (enc_outs t) blocks); SL (map (enc_run t blocks) rs)].
@@ -237,14 +274,14 @@ Definition dec_outs (t : list str) (x : sx) : option outs_t :=
   | _ => None
   end.
 (* (outputs, log) of an ok run *)
-Definition dec_run (t : list str) (blocks : list sx) (x : sx) : option (outs_t * list str) :=
+Definition dec_run (t : list str) (blocks : list sx) (x : sx) : option (outs_t * list str * list str) :=
   match x with
-  | SL [SI 1%Z; b; SL log; _] =>
+  | SL [SI 1%Z; b; SL log; _; SL pre] =>
       match sx_nat b with
       | Some k => match nth_error blocks k with
-                  | Some blk => match dec_outs t blk, all_some (map (dec_str t) log) with
-                                | Some o, Some l => Some (o, l)
-                                | _, _ => None
+                  | Some blk => match dec_outs t blk, all_some (map (dec_str t) log), all_some (map (dec_str t) pre) with
+                                | Some o, Some l, Some pl => Some (o, l, pl)
+                                | _, _, _ => None
                                 end
                   | None => None
                   end
@@ -322,9 +359,16 @@ Fixpoint barrier_go (deps : list (str * list str)) (want : list (str * str)) (be
                            else true) want
       then barrier_go deps want (snd e :: before) t else false
   end.
-Definition barrier_ok (funcs : list mfunc) (want : list str) (log : list str) : bool :=
+Definition barrier_from (funcs : list mfunc) (want : list str) (before : list str) (log : list str) : bool :=
   let named := map (fun x => (fname_of_line x, x)) in
-  barrier_go (producers funcs) (named want) [] (named log).
+  barrier_go (producers funcs) (named want) before (named log).
+Definition barrier_ok (funcs : list mfunc) (want : list str) (log : list str) : bool := barrier_from funcs want [] log.
+
+Fixpoint submultiset (a b : list str) : bool :=
+  match a with
+  | [] => true
+  | x :: a' => match remove_one x b with Some b' => submultiset a' b' | None => false end
+  end.
 
 (* The property: a valid request is answered, whatever the executor / storage / schedule (i.e. in every run of the
    case), with exactly the denoted arrays (returned, stored, and re-opened from the run folder afterwards); the log of invocations is exactly the expected
@@ -338,13 +382,26 @@ Definition spec_ok (c : case) (o : sx) : bool :=
       | SL [SL tab; SL blocks; SL rs] =>
           match all_some (map (fun x => match x with SS y => Some y | _ => None end) tab) with
           | Some t =>
-              (length rs =? length (q_runs c))
+              (length rs =? length (q_runs c) + length (q_resume c))
               && forallb (fun x => match dec_run t blocks x with
-                                   | Some (outs, log) =>
+                                   | Some (outs, log, _) =>
                                        outs_eqb outs want && multiset_eqb log calls
                                        && barrier_ok (q_funcs c) calls log
                                    | None => false
-                                   end) rs
+                                   end) (firstn (length (q_runs c)) rs)
+              (* runs on an existing store: no call is repeated over the whole history of the folder (pre-filling
+                 runs and this run), no call before the calls whose values it consumes (earlier runs count), and
+                 a full final run returns / leaves exactly the denoted arrays with every call made exactly once *)
+              && forallb (fun rx => match dec_run t blocks (snd rx) with
+                                    | Some (outs, log, pre) =>
+                                        submultiset (pre ++ log) calls
+                                        && barrier_from (q_funcs c) calls pre log
+                                        && match s_fx (fst rx) with
+                                           | None => outs_eqb outs want && multiset_eqb (pre ++ log) calls
+                                           | Some _ => true
+                                           end
+                                    | None => false
+                                    end) (combine (q_resume c) (skipn (length (q_runs c)) rs))
           | None => false
           end
       | _ => false
